@@ -4,7 +4,7 @@ def _j(name, entry, what, unwind, **kw):
     d.update(kw)
     return d
 JOBS = [
- _j("SCPI_NumberToStr", "h_number_to_str", "number with unit / special name into every buffer length 0..24: canary behind the buffer, NUL, length", 130,
+ _j("SCPI_NumberToStr", "h_number_to_str", "number with unit / special name into every buffer length 0..24: canary behind the buffer, NUL, length", 130, tier="thorough", mem_gb=44,
     bound="buffer length 0..24 (symbolic), every unit of the real table and every special tag, formatted number = arbitrary text of 1..24 characters (snprintf model); unit-table and string loops unwound 130 with unwinding assertions"),
  _j("SCPI_DoubleToStr", "h_double_to_str", "float/double to string into every buffer length 0..24", 30,
     bound="buffer length 0..24 (symbolic), arbitrary text of 1..24 characters from the snprintf model"),
